@@ -31,6 +31,7 @@ func loadExemptions(c *Ctx, r *core.Result, prop string) []*symmetry.Exemption {
 	var out []*symmetry.Exemption
 	for _, e := range cfg.Exemptions {
 		if e.Property == prop {
+			e.Func = renameIn(e.Func) // follow pure renames of the function / its receiver type
 			out = append(out, e)
 		}
 	}
